@@ -257,7 +257,9 @@ impl<B: AsRef<[usize]> + BitLength, C: AsRef<[BlockCounters]>> Select9<Rank9<B, 
 
                 let start_bit_idx = inventory[inventory_idx];
                 let end_bit_idx = inventory[inventory_idx + 1];
-                let end_word_idx = end_bit_idx.div_ceil(u64::BITS as usize);
+                // The end of the last inventory entry is a sentinel that may lie
+                // beyond the last word
+                let end_word_idx = end_bit_idx.div_ceil(u64::BITS as usize).min(num_words);
                 let mut subinventory_idx = 0;
                 'outer: loop {
                     while word != 0 {
